@@ -182,3 +182,41 @@ Theorem sqrt_newton_sound : forall fuel qf mf a res s r,
   /\ canon s /\ canon r.
 Proof. exact sqrt_loop_spec. Qed.
 Print Assumptions sqrt_newton_sound.
+
+(** exact rationals: sexp_ratio_normalize (with the F-C04-1/2 repair) returns the same fraction in
+    lowest terms with denominator > 1, or an integer; add / mul / div / compare agree with Q *)
+From ChibiV Require Import C04.Model5 C04.ProofsRatio.
+From Coq Require Import QArith.
+Local Open Scope Z_scope.
+
+Theorem ratio_normalize_lowest_terms : forall fuel qf mf n d, wf_num n -> wf_num d -> nval d <> 0 ->
+  rat_ok (ratio_normalize fuel qf mf n d) (nval n) (nval d).
+Proof. exact ratio_normalize_spec. Qed.
+Print Assumptions ratio_normalize_lowest_terms.
+
+Theorem ratio_add_Q : forall fuel qf mf na da nb db q,
+  wf_num na -> wf_num da -> wf_num nb -> wf_num db -> 0 < nval da -> 0 < nval db ->
+  rat_value (ratio_add fuel qf mf na da nb db) = Some q ->
+  (q == (nval na # Z.to_pos (nval da)) + (nval nb # Z.to_pos (nval db)))%Q.
+Proof. exact ProofsRatio.ratio_add_Q. Qed.
+Print Assumptions ratio_add_Q.
+
+Theorem ratio_mul_Q : forall fuel qf mf na da nb db q,
+  wf_num na -> wf_num da -> wf_num nb -> wf_num db -> 0 < nval da -> 0 < nval db ->
+  rat_value (ratio_mul fuel qf mf na da nb db) = Some q ->
+  (q == (nval na # Z.to_pos (nval da)) * (nval nb # Z.to_pos (nval db)))%Q.
+Proof. exact ProofsRatio.ratio_mul_Q. Qed.
+Print Assumptions ratio_mul_Q.
+
+Theorem ratio_div_Q : forall fuel qf mf na da nb db,
+  wf_num na -> wf_num da -> wf_num nb -> wf_num db -> nval da <> 0 -> nval nb <> 0 ->
+  rat_ok (ratio_div fuel qf mf na da nb db) (nval na * nval db) (nval da * nval nb).
+Proof. exact ratio_div_spec. Qed.
+Print Assumptions ratio_div_Q.
+
+Theorem ratio_compare_Q : forall mf na da nb db c,
+  wf_num na -> wf_num da -> wf_num nb -> wf_num db ->
+  ratio_compare mf na da nb db = Some c ->
+  Z.sgn c = Z.sgn (nval na * nval db - nval nb * nval da).
+Proof. exact ratio_compare_spec. Qed.
+Print Assumptions ratio_compare_Q.
